@@ -72,6 +72,8 @@ PROPS["C04"]["parts"].append(H("TestC04Backpressure", "Wbp", 60, 600, qs=1, ts=1
 _BIN = ["part binary: the real executable built from /repo/cmd, a fake discovery service that completes (or withholds) the registration, a harness-owned credit service, real WebSocket clients over loopback TCP, real time; a start-up or transport problem is inconclusive (skip), never a violation"]
 PROPS["C15"]["parts"].append(H("TestC15Binary", "binary", 40, 600, qs=1, ts=4))
 PROPS["C15"]["assumptions"] += _BIN
+PROPS["C15"]["parts"].append(dict(H("TestC15Race", "R", 60, 1500, qs=2, ts=16), race=True))
+PROPS["C15"]["assumptions"] += ["part R: real threads, -race binary; the interleavings of requests with re-registrations are whatever the Go scheduler produces; the oracle uses an exact log of which secrets may have been current during each request, so it cannot fail on a correct tree"]
 PROPS["C17"]["parts"].append(H("TestC17Wire", "W", 150, 1500, qs=1, ts=16, hang_is_violation=True))
 PROPS["C17"]["parts"].append(H("TestC17Binary", "binary", 8, 120, qs=1, ts=8))
 PROPS["C17"]["assumptions"] = PROPS["C17"]["assumptions"] + _BIN
@@ -82,7 +84,7 @@ PROPS["C08"]["assumptions"] += _BIN
 _FUZZ_RULE = "native Go fuzzing (coverage guided) of one message sent by a joined member that owns an entity, in a session with a witness, a subscribed component type and all modules, plus a bystander session; input = message type number and the raw bytes of all fields >= 3; state rebuilt every iteration; oracle: no panic, witness replica == server state, bystander session untouched, sender still a member or gone through the normal path, witness still served; quick tier replays the seed corpus (26 message types x 9 field blobs) and every saved crasher; non-trivial = inputs that reached new coverage (thorough) / replayed inputs (quick)"
 for _p in ("C08", "C04"):
     PROPS[_p]["parts"].append({"name": "fuzz", "gofuzz": "FuzzHandleMessage", "fuzztime": 240, "rule": _FUZZ_RULE, "test": "FuzzHandleMessage"})
-for _p in ("C01", "C02", "C07", "C09", "C10"):
+for _p in ("C01", "C02", "C06", "C07", "C09", "C10", "C12"):
     PROPS[_p]["parts"].append(dict(H("Test%sSched" % _p, "S", 1500, 4000, qs=2, ts=16, hang_is_violation=True), sched=True))
     PROPS[_p]["assumptions"] = PROPS[_p]["assumptions"] + ["part S: scheduling points exist only at the lock acquisitions of models/*.go and modules/*/state.go (sync import redirected to the overlay package vsync); interleavings inside a critical section are not explored; RWMutex is modelled with Go's writer preference; thorough tier enumerates all schedules with <= 2 preemptions for up to 120 generated blocks per shard (at most 2000 schedules each)"]
 PROPS["C06"]["parts"].append(H("TestC06Backpressure", "Wbp", 40, 400, qs=1, ts=8, hang_is_violation=True))
@@ -93,7 +95,7 @@ PROPS["C10"]["parts"].append(dict(H("TestC10IDsExhaustive", "ids", 1, 1, qs=1, t
 META = {
     "C09": {"text": "Randomised real-thread executions under the Go race detector: 2-16 concurrent clients in shared sessions, all modules, both through websocket.Handle with the production logging/metrics decorators (clients keep reading) and against bare handlers (higher contention); any race report, panic, unanswered request, or residue after all clients left fails the check. Exploration level: schedules are sampled, not enumerated.",
             "design_ref": "DESIGN.md 4 (C09)", "note": "Trusted: Go's race detector; the client mix in harness/props/c09_test.go. Lock-granularity enumeration (scheduled driver) is a separate part when present.", "technique": "randomised concurrent stress generation (rapid-seeded) with the Go race detector and liveness/residue oracles"},
-    "C15": {"text": "Stateful property test of both admission entry points (VerifyAuthTokenHandler, WebSocket handshake callback) against a by-construction reference: sequences of secret issuance/rotation/removal and token presentations (valid and every mutation class, all carriers and combinations, earlier token strings presented again after rotation). The inner handler must run exactly when the token is sound for the secret currently held; otherwise 401 and no handler code. Exploration level.",
+    "C15": {"text": "Stateful property test of both admission entry points (VerifyAuthTokenHandler, WebSocket handshake callback) against a by-construction reference: sequences of secret issuance/rotation/removal and token presentations (valid and every mutation class, all carriers and combinations, earlier token strings presented again after rotation). The inner handler must run exactly when the token is sound for the secret currently held, whatever the HTTP method; otherwise 401 and no handler code. Part R repeats this while another thread keeps re-registering the server (secret withdrawn / re-issued / rotated): tokens signed with the empty key or a never-issued key must never get in. Exploration level.",
             "design_ref": "DESIGN.md 4 (C15)", "note": "Trusted: the token builder/reference in harness/props/c15_test.go; golang-jwt and hagall-common are taken as given but are exercised, not modelled.", "technique": "stateful property-based testing (rapid) with a by-construction reference oracle"},
     "C19": {"text": "Four parts. verify: VerifyPayload against an independent reference (own Keccak-256 call, math/big secp256k1 recoverability) on valid triples and every single-field corruption, both directions. forward: the real HandleReceipts loop posting to an in-process credit service that is up, slow, drops the connection after reading, or is down - the multiset of POSTed bodies must equal the well-formed submissions, unchanged, once each. H/W: receipt-heavy histories against queues of capacity 1/2/128 that nobody drains - exactly one answer per submission (accepted / bad request / too busy), immediately, queue content == accepted receipts, connection stays usable.",
             "design_ref": "DESIGN.md 4 (C19)", "note": "Trusted: the reference implementations in harness/props/c19_test.go; receipt wiring in cmd/main.go (queue size, HandleReceipts started) is outside these parts.", "technique": "property-based testing (rapid) with an independent reference implementation, plus fault injection on the forwarding path"},
